@@ -33,10 +33,20 @@ def _short_name(name):
     return name.split("::")[-1] if isinstance(name, str) else ""
 
 
+def _as_subslice(it):
+    """`x.get(a..)` / `x.get(a..b)` once it is known to be Some: the sub-slice x[a..] / x[a..b]"""
+    if isinstance(it, tuple) and it[0] == "field" and it[2] == "0" and isinstance(it[1], tuple) and it[1][0] == "downcast" and it[1][2] == "Some":
+        c = it[1][1]
+        if isinstance(c, tuple) and c[0] == "call" and _short_name(c[1]) == "get" and len(c[2]) == 2 and isinstance(c[2][1], tuple) and c[2][1][0] == "agg" and c[2][1][1].endswith(("ops::Range", "ops::RangeFrom")):
+            return ("index", c[2][0], c[2][1])
+    return it
+
+
 def _elem(it, k, depth=0):
     """Expression of the k-th element of the sequence an iterator expression `it` runs over, or None."""
     if not isinstance(it, tuple) or depth > 12:
         return None
+    it = _as_subslice(it)
     h = it[0]
     if h == "ref":
         return _elem(it[1], k, depth + 1)
@@ -76,9 +86,13 @@ def _count(it, depth=0):
     """(first index, sequence whose length bounds the iteration) description for the exhaustion test, as a string."""
     if not isinstance(it, tuple) or depth > 12:
         return None
+    it = _as_subslice(it)
     h = it[0]
     if h == "ref":
         return _count(it[1], depth + 1)
+    if h == "index" and isinstance(it[2], tuple) and it[2][0] == "agg" and it[2][1].endswith("ops::RangeFrom") and len(it[2][4]) == 1:
+        c = _count(it[1], depth + 1)
+        return None if c is None else "%s skip %s" % (c, show(it[2][4][0]))
     if h == "agg" and it[1].endswith("ops::Range") and len(it[4]) == 2:
         return "%s..%s" % (show(it[4][0]), show(it[4][1]))
     if h == "call":
@@ -146,6 +160,7 @@ class Lockstep:
                     l = self._root(t["args"][0]["place"]["l"])
                     counts[l] = counts.get(l, 0) + 1
         self.iters = {l: v for l, v in self.iters.items() if counts.get(l) == 1}
+        self.induction = self._find_induction()
         # the driver: the iterator whose `next` every turn begins with (its exhaustion ends the loop)
         self.driver = None
         for bb in sorted(self.region):
@@ -157,6 +172,57 @@ class Lockstep:
                     if l in self.iters and all(body.dominates(bb, x) for x in self.region if x != header and not body.dominates(x, bb)):
                         self.driver = l
                         break
+
+    def _find_induction(self):
+        """Locals counted up by hand: `let mut i = e0; loop { ..uses of i..; i += c; }` - one definition before the
+        loop, one inside it of the form i := i + c, which every use inside the loop precedes.  In turn k such a local
+        holds e0 + c*k (c == 1 is what the crate uses)."""
+        body, se = self.body, self.se
+        out = {}
+        for l, ds in se.defs.items():
+            if len(ds) != 2 or any(k != "stmt" for k, _, _ in ds) or l in se.mut_borrowed or 1 <= l <= body.argc:
+                continue
+            inside = [d for d in ds if d[1] in self.region]
+            outside = [d for d in ds if d[1] not in self.region]
+            if len(inside) != 1 or len(outside) != 1:
+                continue
+            _, bi, si = inside[0]
+            rv = body.blocks[bi]["stmts"][si]["rv"]
+            # i = move (_t.0) with _t = AddWithOverflow(i, 1), or i = Add(i, 1)
+            step = None
+            if rv["k"] == "use" and rv["op"].get("k") in ("move", "copy") and rv["op"]["place"]["p"] and not isinstance(rv["op"]["place"]["p"][0], str):
+                tl = rv["op"]["place"]["l"]
+                tds = se.defs.get(tl, [])
+                if len(tds) == 1 and tds[0][0] == "stmt":
+                    rv2 = body.blocks[tds[0][1]]["stmts"][tds[0][2]]["rv"]
+                    if rv2["k"] == "bin" and rv2["op"] in ("AddWithOverflow", "Add"):
+                        step = rv2
+            elif rv["k"] == "bin" and rv["op"] == "Add":
+                step = rv
+            if step is None:
+                continue
+            a, b_ = step["a"], step["b"]
+            if not (a.get("k") in ("copy", "move") and not a["place"]["p"] and a["place"]["l"] == l and b_.get("k") == "const" and b_.get("int") == 1):
+                continue
+            # every other mention of the local inside the loop is in a block that dominates the increment
+            import json as _json
+            okk = True
+            for x in self.region:
+                if x == bi:
+                    continue
+                s = _json.dumps([st for st in body.blocks[x]["stmts"] if st.get("k") not in ("live", "dead")]) + _json.dumps(body.blocks[x]["term"])
+                if ('"l": %d,' % l) in s or ('"l": %d}' % l) in s:
+                    if not body.dominates(x, bi):
+                        okk = False
+            if not okk:
+                continue
+            _, b0, s0 = outside[0]
+            try:
+                v0 = se.ev.rvalue(body.blocks[b0]["stmts"][s0]["rv"], se.local_value)
+            except Exception:
+                continue
+            out[l] = v0
+        return out
 
     def _root(self, l):
         """the local whose address a `&mut` temporary holds (through reborrows)"""
@@ -225,6 +291,8 @@ class Lockstep:
         if not isinstance(e, tuple):
             return e
         if e and isinstance(e[0], str):
+            if e[0] in ("uninit", "var") and len(e) == 2 and e[1] in self.induction:
+                return _add(self.induction[e[1]], K)
             # the element an iterator of the loop yields in this turn
             if e[0] == "field" and isinstance(e[1], tuple) and e[1][0] == "downcast" and e[1][2] == "Some" and e[2] == "0":
                 c = e[1][1]
